@@ -31,6 +31,7 @@ TRUSTED_BASE = [
     "axioms: none — every property theorem prints 'Closed under the global context' (recorded per theorem under coverage.assumptions)",
     "the ordered-field laws (class Laws in coq/Scalar.v) are premises of the theorems, instantiated at Qc in coq/Instances.v",
     "hand-written Gallina model of the library (coq/Support.v Poly.v Spline.v Ops.v Forms.v Generator.v Interp.v Pool.v); tied to /repo by the exact correspondence run of this check",
+    "the extracted model is cross-checked on every run: a sample of the generated cases is evaluated inside Coq with vm_compute (coq/EvalCheck.v) and compared outcome by outcome with the OCaml run",
     "extraction: ExtrOcamlBasic only (Extract Inductive bool/option/unit/list/prod/sumbool/sumor, Extract Inlined Constant andb/orb); no directive of our own; OCaml 4.13.1 ocamlopt; Zarith used only for decimal I/O in ocaml/driver.ml",
     "correspondence machinery: gen/*.py, ocaml/driver.ml, cpp/harness.h, boost::multiprecision::cpp_rational (exact arithmetic on the C++ side), g++ 12, libstdc++, ASan/UBSan where used",
     "modelled rather than verified: std::vector/array/optional/shared_ptr as values (no object identity), std::lower_bound/unique/min/max by contract, exceptions as the outcome monad, template instantiation and overload resolution (the model's constructors name the overloads)",
@@ -242,6 +243,14 @@ def main(argv):
         extra_notes[stage.__name__] = r.get("notes", {})
         for t in r.get("nontrivial", []):
             extra_distinct.add(t)
+    # every run: a sample (3 quick / 12 thorough) of the cases evaluated inside Coq (vm_compute) against the extracted run
+    if cases and ml and not a.replay:
+        import coqeval
+        r = coqeval.stage_coq_eval(pid, seed, tier, workdir, cases, ml, sample=(3 if tier == "quick" else 12))
+        diffs += r.get("diffs", [])
+        infra += r.get("infra", [])
+        extra_eval += r.get("evaluations", 0)
+        extra_notes["coq_eval_vs_extraction"] = r.get("notes", {})
     # ---- 4. decide ----
     seen_reports = set()
     for d in diffs:
